@@ -189,6 +189,9 @@ func seenFilterSlice(f *ssa.Function, v ssa.Value) bool {
 			if !ok {
 				continue
 			}
+			if selfReach(mm.Block()) {
+				continue // the map is re-created inside a loop: it forgets earlier elements
+			}
 			if !(miss == ap.Block() || blockDominatedByEdge(f, blk, miss, ap.Block())) {
 				continue
 			}
@@ -295,6 +298,39 @@ func ruleMapOrder(w *World, r *Report, f *ssa.Function, pidx int) {
 		}
 		n++
 		sub := fmt.Sprintf("success return#%d", n)
+		// alternative form: a list pre-sized to len(input) and filled by index in the loop
+		if ms, ok := resolve(ret.Results[0]).(*ssa.MakeSlice); ok {
+			okLen := false
+			if lc, isL := resolve(ms.Len).(*ssa.Call); isL && builtinName(lc) == "len" && resolve(lc.Call.Args[0]) == ssa.Value(f.Params[pidx]) {
+				okLen = true
+			}
+			stores := 0
+			var stBlk *ssa.BasicBlock
+			for _, ref := range *ms.Referrers() {
+				ia, isIA := ref.(*ssa.IndexAddr)
+				if !isIA {
+					continue
+				}
+				for _, r2 := range *ia.Referrers() {
+					if st, isSt := r2.(*ssa.Store); isSt && st.Addr == ia {
+						if ia.Index != loop.Idx || !loop.blocks()[st.Block()] {
+							okLen = false
+						}
+						stores++
+						stBlk = st.Block()
+					}
+				}
+			}
+			switch {
+			case !okLen || stores != 1:
+				add(sub, w.Pos(ret.Pos()), Violated, fmt.Sprintf("the pre-sized result is not filled by exactly one indexed store per iteration at the loop index (stores: %d)", stores))
+			case reachableFrom(loop.Body, map[*ssa.BasicBlock]bool{stBlk: true, loop.Done: true})[loop.Header]:
+				add(sub, w.Pos(ret.Pos()), Violated, "some iteration returns to the loop header without storing its output (an input element is skipped)")
+			default:
+				add(sub, w.Pos(ret.Pos()), Discharged, "result[i] is stored in every iteration of the range over "+f.Params[pidx].Name())
+			}
+			continue
+		}
 		ai := appendChain(ret.Results[0])
 		okBase := true
 		for _, b := range ai.Bases {
